@@ -35,11 +35,22 @@ def runB (f : Nat → Nat → Nat → St → R St) : List Tok → Option (List T
     answer (f w u cnt.toNat (ofInts [v0, v1, v2, v3]))
   | _ => none
 
-def runU (dir : Int) : List Tok → Option (List Tok)
+def runU (f : Nat → Nat → Nat → St → R (Nat × St)) : List Tok → Option (List Tok)
   | [.num w, .num u, .num d, .num v0, .num v1, .num v2, .num v3] => do
     let w ← idx w; let u ← idx u
     if d < 0 ∨ d ≥ B then none else
-    match div_q_ui dir w u d.toNat (ofInts [v0, v1, v2, v3]) with
+    match f w u d.toNat (ofInts [v0, v1, v2, v3]) with
+    | .error e => some [.err e]
+    | .ok (ret, s) =>
+      some (.num ret :: (List.range 4).flatMap fun i =>
+        [.num (s.value i), .num (s.alloc i), .num (if s.ptr i = i then 0 else 1)])
+  | _ => none
+
+def runU2 (dir : Int) : List Tok → Option (List Tok)
+  | [.num q, .num r, .num u, .num d, .num v0, .num v1, .num v2, .num v3] => do
+    let q ← idx q; let r ← idx r; let u ← idx u
+    if q = r ∨ d < 0 ∨ d ≥ B then none else
+    match div_qr_ui dir q r u d.toNat (ofInts [v0, v1, v2, v3]) with
     | .error e => some [.err e]
     | .ok (ret, s) =>
       some (.num ret :: (List.range 4).flatMap fun i =>
@@ -77,9 +88,15 @@ def handle : Handler
       some ((List.range 4).flatMap fun i =>
         [.num (s.value i), .num (s.alloc i),
          .num (if i = a then (if s.alloc i = s0.alloc i then 0 else 1) else (if s.ptr i = i then 0 else 1))])
-  | "alias_tdiv_q_ui", args => runU 0 args
-  | "alias_fdiv_q_ui", args => runU (-1) args
-  | "alias_cdiv_q_ui", args => runU 1 args
+  | "alias_tdiv_q_ui", args => runU (div_q_ui 0) args
+  | "alias_fdiv_q_ui", args => runU (div_q_ui (-1)) args
+  | "alias_cdiv_q_ui", args => runU (div_q_ui 1) args
+  | "alias_tdiv_r_ui", args => runU (div_r_ui 0) args
+  | "alias_fdiv_r_ui", args => runU (div_r_ui (-1)) args
+  | "alias_cdiv_r_ui", args => runU (div_r_ui 1) args
+  | "alias_tdiv_qr_ui", args => runU2 0 args
+  | "alias_fdiv_qr_ui", args => runU2 (-1) args
+  | "alias_cdiv_qr_ui", args => runU2 1 args
   | "alias_mul_2exp", args => runB mul_2exp args
   | "alias_tdiv_q_2exp", args => runB tdiv_q_2exp args
   | "alias_tdiv_r_2exp", args => runB tdiv_r_2exp args
